@@ -182,6 +182,7 @@ def run_proc(argv, cwd, env, timeout=60, stdin=None, stdout_path=None, tmpdir=No
         p.wait(timeout=timeout)
     except subprocess.TimeoutExpired:
         timed_out = True
+        live_children = _children_of(p.pid)
         try:
             os.kill(p.pid, signal.SIGQUIT)
         except ProcessLookupError:
@@ -209,7 +210,28 @@ def run_proc(argv, cwd, env, timeout=60, stdin=None, stdout_path=None, tmpdir=No
     ef.seek(0)
     err = ef.read()
     ef.close()
-    return Result(p.returncode, out, err, timed_out, wall)
+    res = Result(p.returncode, out, err, timed_out, wall)
+    if timed_out:
+        res.rusage = {"live_children": live_children}
+    return res
+
+
+def _children_of(pid):
+    """Names of live (non-zombie) child processes of pid (for deadlock witnesses)."""
+    out = []
+    for d in os.listdir("/proc"):
+        if not d.isdigit():
+            continue
+        try:
+            with open("/proc/%s/stat" % d) as f:
+                st = f.read()
+            rp = st.rfind(")")
+            fields = st[rp + 2:].split()
+            if int(fields[1]) == pid and fields[0] != "Z":
+                out.append(st[st.find("(") + 1:rp])
+        except (OSError, ValueError, IndexError):
+            continue
+    return out
 
 
 def sizer(binary, cwd, args, env=None, shimdir=None, plan=None, timeout=60, tmpdir=None, **kw):
